@@ -30,6 +30,50 @@ def complex_types_for(S, clark):
     return sorted(t for t in S.elem_decls.get(clark, ()) if t in S.ctypes)
 
 
+def relevant_types(prog, S, M, tag, _cache={}):
+    """Schema types of `tag` in which the registered class is actually reached: types T such that some
+    parent type PT (with child tag -> T) is served by a registered class that declares or mentions this
+    child.  When no parent qualifies for any candidate (roots, elements reached only by distant xpath)
+    every candidate is kept."""
+    key = (id(M), tag)
+    if key in _cache:
+        return _cache[key]
+    clark = prog.qn(tag)
+    cands = complex_types_for(S, clark)
+    if len(cands) <= 1:
+        _cache[key] = cands
+        return cands
+    served = {}
+    for t, c, _, _ in M.registry:
+        for tq in complex_types_for(S, prog.qn(t)):
+            served.setdefault(tq, []).append(c)
+    keep = []
+    for T in cands:
+        ok = S.global_elems.get(clark) == T  # global elements are roots / xsd:any content: always reachable
+        for PT in S.elem_parents.get(clark, ()):
+            if S.child_type(PT, clark) != T:
+                continue
+            for pc in served.get(PT, ()):
+                if M.child_decl_for_tag(pc, tag) is not None or _mentions(prog, pc, tag):
+                    ok = True
+        if ok:
+            keep.append(T)
+    res = keep or cands
+    _cache[key] = res
+    return res
+
+
+def _mentions(prog, cls, tag):
+    import ast as _ast
+
+    for k in prog.mro(cls):
+        for f in list(k.methods.values()) + list(k.setters.values()):
+            for n in _ast.walk(f.node):
+                if isinstance(n, _ast.Constant) and isinstance(n.value, str) and tag in n.value:
+                    return True
+    return False
+
+
 def pairings(prog, S, M):
     out = []
     unregistered = []
@@ -47,7 +91,7 @@ def pairings(prog, S, M):
         for d in decls:
             pycls = d.st.cls if isinstance(d.st, ClassRef) else None
             for tag in tags:
-                for tq in complex_types_for(S, prog.qn(tag)):
+                for tq in relevant_types(prog, S, M, tag):
                     attrs = S.attrs_of(tq)
                     a = attrs.get(attr_clark(prog, d.attr))
                     out.append(Pair(cls, d, tag, tq, a, pycls))
